@@ -78,8 +78,9 @@ func (c Cfg) String() string {
 		f(!c.CastBool, "nobool"), f(c.CastNanInf, "naninf"), f(c.SkipFunc, "skipfn"))
 }
 
-// skipTag is the predicate installed by SkipFunc: tags whose folded name ends in 'b' are not cast.
-func skipTag(t string) bool { return strings.HasSuffix(t, "b") }
+// skipTag is the predicate installed by SkipFunc: tags (as they appear as keys of the Map: folded, prefixed) that end in
+// 'b' or contain an underscore are not cast.
+func skipTag(t string) bool { return strings.HasSuffix(t, "b") || strings.Contains(t, "_") }
 
 // Apply sets the configuration through the public setters only.
 func (c Cfg) Apply() {
